@@ -125,6 +125,14 @@ const SigRSAPKCS1SHA256 = 0x0401
 // ExtSignatureAlgorithms is extension 13.
 const ExtSignatureAlgorithms = 13
 
+// Next protocol negotiation (draft-agl-tls-nextprotoneg-04) and certificate status (RFC 6066).
+const (
+	ExtNPN              = 13172
+	ExtStatusRequest    = 5
+	HsNextProtocol      = 67
+	HsCertificateStatus = 22
+)
+
 // SigAlgsData builds the signature_algorithms extension data.
 func SigAlgsData(algs ...uint16) []byte {
 	var l bld
